@@ -40,7 +40,7 @@ def doc_history_alphabet(tier, with_values=None, rich=False):
             ("rel", scope, "generation", ("B", "g", Q("ex")), (("B", "x", Q("ex")), None, None)),
         ]
     # attributes on the record created last
-    vals = with_values or ["s_a", "i_2", "b_T", "q_exB", "l_lang", "l_foreign"]
+    vals = with_values or ["s_a", "i_2", "b_T", "q_exB", "l_lang", "l_foreign", "l_exdt"]
     for an in (("A", "k", S("ex")), ("A", "k", BARE), ("B", "k", Q("ex"))):
         for v in vals:
             ops.append(("at", an, v))
